@@ -16,6 +16,8 @@ LEAN_MODULE = "SnowProofs.Props.C18"
 THEOREMS = [
     dict(name="Snow.C18.ints_exact", clause="an index list is accepted iff every index is in 0..N-1 and then records exactly the listed vials", strength="full"),
     dict(name="Snow.C18.group_exact", clause="a group request records exactly getVialGroup of the first group word found", strength="full"),
+    dict(name="Snow.C18.uniform_request", clause="a 'uniform n' request records every ceil(len/n)-th vial of the group (what the interpretation computes)", strength="full"),
+    dict(name="Snow.C18.random_request", clause="a 'random n' request records the supplied choice, or is rejected (ValueError) when n exceeds the group", strength="full"),
     dict(name="Snow.C18.uniform_le", clause="'uniform n': at most n vials, all from the group, at least one", strength="full"),
     dict(name="Snow.C18.random_exact", clause="'random n': for any choice without repetition from the group, exactly n vials, all from the group; n > |group| is rejected", strength="full"),
     dict(name="Snow.C18.strings_union", clause="a list of requests records the union of the single requests", strength="full"),
